@@ -270,6 +270,8 @@ inductive Wrap
   | wrapped        -- lightclient MsgUpdateClient{Inner} in the transaction
   | nested         -- ibc MsgUpdateClient inside authz.MsgExec
   | nestedWrapped  -- lightclient MsgUpdateClient inside authz.MsgExec
+  | storedProposal -- ibc MsgUpdateClient inside an x/group MsgSubmitProposal that is only stored (Exec unspecified) and would
+                   -- be executed later, by a vote with Exec = TRY, through the message router alone
   deriving DecidableEq, Repr, Inhabited
 
 inductive Res
@@ -286,6 +288,7 @@ inductive Res
 def updateClient (s : St) (c : Nat) (w : Wrap) (hd : Hdr) (ibc : Bool) : St × Res :=
   match w with
   | .nested => (s, .ante .nestedDisabled)
+  | .storedProposal => (s, .ante .nestedDisabled)     -- the filter unwraps a proposal whatever its Exec field says
   | .wrapped => (s, .ante .noSigner)
   | .nestedWrapped => (s, .msg .noSigner)
   | .top =>
@@ -299,6 +302,7 @@ def updateClient (s : St) (c : Nat) (w : Wrap) (hd : Hdr) (ibc : Bool) : St × R
 
 inductive MKind
   | submit | submitNested | viaUpdate | viaUpdateNested | viaWrapped | viaWrappedNested
+  | submitStored | viaUpdateStored      -- inside a stored x/group proposal (see `Wrap.storedProposal`)
   deriving DecidableEq, Repr, Inhabited
 
 /-- misbehaviour evidence against client `c`; `ibc` = the evidence verifies (the client gets frozen) -/
@@ -313,23 +317,38 @@ def misbehaviour (s : St) (c : Nat) (k : MKind) (ibc : Bool) : St × Res :=
     | .submitNested => (s, .ante .nestedDisabled)             -- refused at depth ≥ 1 like a nested MsgUpdateClient
     | .viaUpdate => if canonical then (s, .ante .misbehaviourDisabled) else exec
     | .viaUpdateNested => (s, .ante .nestedDisabled)
+    | .submitStored => (s, .ante .nestedDisabled)
+    | .viaUpdateStored => (s, .ante .nestedDisabled)
     | .viaWrapped => (s, .ante .noSigner)
     | .viaWrappedNested => (s, .msg .noSigner)
 
 -- ---------------------------------------------------------------- channels
 
-/-- `HandleMsgChannelOpenAck` (ante) followed by the message; `ibc` = the handshake proof verifies -/
-def chanAck (s : St) (ch : Nat) (ibc : Bool) : St × Res :=
+/-- how the last step of a transfer-channel handshake reaches the hub -/
+inductive ChanRoute
+  | ack          -- MsgChannelOpenAck as a message of the transaction (handshake started from the hub)
+  | nestedAck    -- MsgChannelOpenAck inside authz.MsgExec: neither the nested-message filter nor the decorator looks at it
+  | confirm      -- MsgChannelOpenConfirm (handshake started from the rollapp): not in the decorator's handled set
+  deriving DecidableEq, Repr, Inhabited
+
+/-- `HandleMsgChannelOpenAck` (ante; only for `MsgChannelOpenAck` at top level) followed by the message;
+    `ibc` = the handshake proof verifies -/
+def chanAck (s : St) (ch : Nat) (w : ChanRoute) (ibc : Bool) : St × Res :=
   match s.chans.find? (·.id == ch) with
-  | none => (s, .ante .chanUnknown)
+  | none => (match w with
+    | .ack => (s, .ante .chanUnknown)
+    | _ => (s, .msg .ibc))
   | some c =>
     let openIt (s : St) : St × Res :=
       if ibc then ({ s with chans := s.chans.map (fun x => if x.id == ch then { x with isOpen := true } else x) }, .ok) else (s, .msg .ibc)
-    match lookup s.c2r c.client with
-    | none => openIt s
-    | some r =>
-      if (lookup s.chanOf r).isSome then (s, .ante .chanExists)
-      else openIt { s with chanOf := s.chanOf ++ [(r, ch)] }
+    match w with
+    | .ack =>
+      (match lookup s.c2r c.client with
+      | none => openIt s
+      | some r =>
+        if (lookup s.chanOf r).isSome then (s, .ante .chanExists)
+        else openIt { s with chanOf := s.chanOf ++ [(r, ch)] })
+    | _ => openIt s      -- the channel opens, `Rollapp.ChannelId` is not touched
 
 -- ---------------------------------------------------------------- hooks around Core ops
 
@@ -485,7 +504,7 @@ inductive Op
   | updateClient (c : Nat) (w : Wrap) (hd : Hdr) (ibc : Bool)
   | misbehaviour (c : Nat) (k : MKind) (ibc : Bool)
   | chanInit (c : Nat)
-  | chanAck (ch : Nat) (ibc : Bool)
+  | chanAck (ch : Nat) (w : ChanRoute) (ibc : Bool)
   deriving Repr, Inhabited
 
 def step (s : St) : Op → St × Res
@@ -498,7 +517,7 @@ def step (s : St) : Op → St × Res
   | .updateClient c w hd ibc => updateClient s c w hd ibc
   | .misbehaviour c k ibc => misbehaviour s c k ibc
   | .chanInit c => chanInit s c
-  | .chanAck ch ibc => chanAck s ch ibc
+  | .chanAck ch w ibc => chanAck s ch w ibc
 
 def init (p : Core.Params) : St :=
   { core := Core.init p, descs := [], clients := [], r2c := [], c2r := [], signerSet := [], signerMap := [], chanOf := [], chans := [] }
